@@ -5,7 +5,7 @@ s=$1; shift
 cd /repo && git apply /verif/seeded/$s/patch.diff || { echo "no apply"; exit 1; }
 for f in "$@"; do
   for m in client server; do
-    (cd /repo/$m && GOVC_NORETRY=1 timeout 600 /verif/bin/govc verify --func "$f" -timeout 20 2>&1 | grep -v "^   ok\|^     \|^loaded\|^done\|no function" | cut -c1-230 | head -5)
+    (cd /repo/$m && GOVC_NORETRY=1 timeout 600 ${GOVC:-/verif/bin/govc} verify --func "$f" -timeout 20 2>&1 | grep -v "^   ok\|^     \|^loaded\|^done\|no function" | cut -c1-230 | head -5)
   done
 done
 cd /repo && git apply -R /verif/seeded/$s/patch.diff
